@@ -11,6 +11,7 @@ CONSTANTS
   Tmo <- TmoGen
   Horizon = 2
   AllowFaults = FALSE
+  AllowCancel = FALSE
   AbstractTime = FALSE
   LeakSearchIdOnDone = FALSE
   AbandonKeepsTargetId = FALSE
